@@ -58,13 +58,15 @@ _T: Dict[str, Tuple[Any, Any]] = {
     "PXW": (lambda a: bytes([0x30, 0xCC, PX, a & 0xFF]), lambda a: f"MV    (PX), {a & 0xFF:02X}"),
     "PYW": (lambda a: bytes([0x30, 0xCC, PY, a & 0xFF]), lambda a: f"MV    (PY), {a & 0xFF:02X}"),
     "JRB": (lambda a: bytes([0x13, a & 0xFF]), lambda a: f"JR    -{a & 0xFF:02X}"),
+    # firmware stack set-up: MV S, imm20 (round 5; scenarios that start with the system stack pointer not yet loaded)
+    "SETS": (lambda a: bytes([0x0F, a & 0xFF, (a >> 8) & 0xFF, (a >> 16) & 0x0F]), lambda a: f"MV    S, {a & 0xFFFFF:05X}"),
 }
 
 # slot name -> list of (template, arg-transform) it expands to
 _SLOTS = {
     "NOP": ["NOP"], "HALT": ["HALT"], "OFF": ["OFF"], "IMR": ["IMR"], "ISR": ["ISR"], "ACK": ["ACK"],
     "ORIMR": ["ORIMR"], "ANDIMR": ["ANDIMR"], "INCA": ["INCA"], "INCM": ["INCM"], "KIL": ["KIL"],
-    "WAIT": ["MVI", "WAITI"], "BPW": ["BPW"], "PXW": ["PXW"], "PYW": ["PYW"],
+    "WAIT": ["MVI", "WAITI"], "BPW": ["BPW"], "PXW": ["PXW"], "PYW": ["PYW"], "SETS": ["SETS"],
 }
 
 
@@ -168,6 +170,12 @@ def layout(prog: Dict[str, Any]) -> Tuple[List[Tuple[int, bytes]], Dict[int, Dic
     return segs, meta
 
 
+def initial_s(sc: Dict[str, Any]) -> int:
+    """Initial system stack pointer of a scenario: STACK_TOP unless the scenario starts before the firmware has loaded
+    S ("s0": 0..4 = not yet initialised; the program then contains a SETS slot = MV S,STACK_TOP)."""
+    return int(sc.get("s0", STACK_TOP)) & 0xFFFFF
+
+
 def stack_window(sc: Dict[str, Any]) -> int:
     """Size of the observed stack window of a scenario: handlers that do not return leak one 5-byte frame per
     delivery, so such scenarios ask for a larger window ("stkwin")."""
@@ -211,7 +219,7 @@ def selftest() -> List[str]:
     samples = [("NOP", 0), ("RETI", 0), ("RESET", 0), ("HALT", 0), ("OFF", 0), ("WAITI", 0), ("MVI", 0x0123), ("MVI", 7),
                ("IMR", 0x8F), ("IMR", 0x00), ("ISR", 0x00), ("ISR", 0x05), ("ACK", 0xFE), ("ORIMR", 0x80),
                ("ANDIMR", 0x7F), ("INCA", 0), ("INCM", SCRATCH), ("KIL", 0), ("JRB", 0x23),
-               ("BPW", 0x10), ("PXW", 0xA5), ("PYW", 0xFF)]
+               ("BPW", 0x10), ("PXW", 0xA5), ("PYW", 0xFF), ("SETS", STACK_TOP), ("SETS", 0x00003)]
     for name, arg in samples:
         b = encode(name, arg)
         r = G.text_of(b + G.NOP_PAD, MAIN)
